@@ -97,7 +97,7 @@ private:
 
   void write_sram(uint32_t address, uint8_t value)
   {
-    if (serial_in != nullptr && address == serial_address)
+    if (serial_out != nullptr && address == serial_address)
     {
       serial_write8(value);
     }
